@@ -24,12 +24,7 @@ mod verif_c03_wrapper {
         }
     }
 
-    // @h name=c03_wrapper_names_requested_id tier=quick timeout=600
-    #[kani::proof]
-    #[kani::unwind(6)]
-    fn c03_wrapper_names_requested_id() {
-        let mode: u8 = kani::any();
-        kani::assume(mode < 3);
+    fn wrapper_case(mode: u8) {
         unsafe { MODE = mode; }
         let cache = AssetCache::verif_new(crate::source::Empty, None);
         let typ = Type::of::<K>();
@@ -55,8 +50,19 @@ mod verif_c03_wrapper {
                 std::mem::forget(e);
             }
         }
-        kani::cover!(mode == 2);
-        kani::cover!(mode == 0);
         std::mem::forget(cache);
     }
+
+    // @h name=c03_wrapper_ok tier=parked cap=1 timeout=3600 mem=24
+    #[kani::proof]
+    #[kani::unwind(6)]
+    fn c03_wrapper_ok() { wrapper_case(0); kani::cover!(true); }
+    // @h name=c03_wrapper_plain_error tier=quick cap=1 timeout=240
+    #[kani::proof]
+    #[kani::unwind(6)]
+    fn c03_wrapper_plain_error() { wrapper_case(1); kani::cover!(true); }
+    // @h name=c03_wrapper_nested_error tier=quick cap=1 timeout=240
+    #[kani::proof]
+    #[kani::unwind(6)]
+    fn c03_wrapper_nested_error() { wrapper_case(2); kani::cover!(true); }
 }
